@@ -435,9 +435,17 @@ func (s *S) Check(c *scen.Ctx, res *simrt.Result) {
 		}
 	}
 	if s.finished {
-		if len(res.LockWaitEnd) > 0 {
+		// (a goroutine that waits for the connection lock while somebody dials is not stuck: only
+		// waits longer than a dial can take count)
+		var stuck []string
+		for i, w := range res.LockWaitEnd {
+			if res.LockWaitFor[i] >= s.dialTO+time.Second {
+				stuck = append(stuck, fmt.Sprintf("%s (for %v)", w, res.LockWaitFor[i]))
+			}
+		}
+		if len(stuck) > 0 {
 			c.Fail("C09", "goroutine-leak", "blocked-forever", "after all calls had returned and the world had been idle for %v, %d goroutine(s) started by the calls were still blocked on a lock or a sync.Once that nobody will release: %v",
-				s.readTO+ms(s.proxyTO)+ms(2200), len(res.LockWaitEnd), res.LockWaitEnd)
+				s.readTO+ms(s.proxyTO)+ms(2300)+s.dialTO, len(stuck), stuck)
 		}
 		if s.after.QueueLen != s.before.QueueLen || s.after.Pending != s.before.Pending || s.after.InvokeNum != s.before.InvokeNum {
 			c.Fail("C09", "leftover", "proxy-state", "after every call returned and the world was idle for %v: queueLen %d (was %d), pending replies %d (was %d), invokeNum %d (was %d)",
